@@ -5,6 +5,7 @@ import (
 	"encoding/json"
 	"errors"
 	"fmt"
+	"math"
 	"strconv"
 	"strings"
 	"testing"
@@ -430,7 +431,7 @@ func TestCheck(t *testing.T) {
 
 	// Phase W: texts that programs conventionally treat specially ("null", "nil", "", "0", "N", ...) through every entry point.
 	r.Phase(fmt.Sprintf("W: %d conventional special texts (null, nil, none, 0, nulla, ...) x rules x limits through every entry point", len(ref.ConventionalTexts)), func() {
-		for _, lim := range []int{0, -1, 4} {
+		for _, lim := range []int{0, -1, 4, math.MaxInt, math.MaxInt - 1, 1 << 31, 1 << 32} {
 			restore := setLimit(lim)
 			r.Serial(func(w *vkit.W) {
 				for _, text := range ref.ConventionalTexts {
